@@ -325,8 +325,7 @@ type vC09H struct {
 	removed                  []vC09Sym
 	initCfg                  []vC09Sym
 	idx                      int
-	windowBadSeen            bool
-	windowOkSeen             bool
+	windowSeen               map[string]bool
 	tRun, tNew               time.Duration
 	nRun, nNew, nDrop        int
 }
@@ -520,7 +519,21 @@ func (o vC09Obs) short() string {
 }
 
 // restart: a new process on the same directory
-func (h *vC09H) newResolver(cfg []vC09Sym) {
+func (h *vC09H) newResolver(cfg []vC09Sym, tr int) {
+	tp := h.tpath()
+	pt, ptok := vC09ReadOpt(tp)
+	switch tr {
+	case 1:
+		_ = os.RemoveAll(tp)
+		if h.rng.Intn(2) == 0 {
+			_ = os.WriteFile(tp, []byte{0x03, 0xff, 0x82, 0x00, 0x01}, 0o600)
+		} else {
+			_ = os.WriteFile(tp, nil, 0o600)
+		}
+	case 2:
+		_ = os.RemoveAll(tp)
+		_ = os.Symlink(tombstoneFile, tp)
+	}
 	c := new(config.Config)
 	c.RootServers = []string{h.srv.addr}
 	for _, k := range cfg {
@@ -538,60 +551,74 @@ func (h *vC09H) newResolver(cfg []vC09Sym) {
 	h.r = NewResolver(c)
 	h.tNew += time.Since(tA)
 	h.nNew++
+	if tr != 0 {
+		vC09Restore(tp, pt, ptok)
+	}
 	h.cfg = append([]vC09Sym(nil), cfg...)
 	h.cur = h.observe()
-	// restart-window observation: what is live right after NewResolver against the tombstones on disk
-	if h.cur.hasT && len(h.cur.tomb) > 0 {
-		viol := false
+	// restart-window observation: what is live right after NewResolver against the revocations on record
+	markers := map[int]bool{}
+	for _, e := range h.cur.state {
+		if e.st == int(StateRevoked) || e.st == int(StateRemoved) {
+			markers[e.k.mat] = true
+		}
+	}
+	if (h.cur.hasT && len(h.cur.tomb) > 0) || len(markers) > 0 || tr != 0 {
+		viol, markerOnly := false, true
 		for _, k := range h.cur.live {
 			if _, ok := h.cur.tomb[k.mat]; ok {
+				viol, markerOnly = true, false
+			} else if markers[k.mat] {
 				viol = true
 			}
 		}
-		var tb []string
-		var ms []int
-		for m := range h.cur.tomb {
-			ms = append(ms, m)
-		}
-		sort.Ints(ms)
-		for _, m := range ms {
-			e := h.cur.tomb[m]
-			tb = append(tb, fmt.Sprintf("TB %d %d %s", e.k.mat, e.k.flags, vC09Z(e.fs)))
+		if tr != 0 && len(h.cur.live) > 0 {
+			viol, markerOnly = true, false
 		}
 		rec := map[string]any{
 			"k":          "window-clean",
-			"coq":        fmt.Sprintf("CWindow %s %s [%s] %s", h.tbl(), vC09KeysCoq(cfg), strings.Join(tb, ";"), vC09KeysCoq(h.cur.live)),
+			"coq":        fmt.Sprintf("CWindow %s %s %s %d %s", h.tbl(), vC09KeysCoq(cfg), h.cur.coq(), tr, vC09KeysCoq(h.cur.live)),
 			"nontrivial": true,
-			"desc":       map[string]any{"index": h.idx, "what": "rootKeys right after NewResolver vs tombstones on disk", "config": vC09KeysCoq(cfg), "observed": h.cur.short()},
+			"desc":       map[string]any{"index": h.idx, "what": "rootKeys right after NewResolver vs revocations on record", "config": vC09KeysCoq(cfg), "tombstone_read": tr, "observed": h.cur.short()},
+		}
+		cls := "ok"
+		if tr != 0 {
+			rec["k"] = "window-store-unreadable"
+			cls = "fault"
 		}
 		if viol {
 			rec["k"] = "window-revoked-configured"
-			rec["fkey"] = "restart-window-trusts-tombstoned-configured-key"
-			h.windowBad = true
+			cls = "bad"
+			if markerOnly {
+				// the revocation is on record only as a StateRevoked marker in trust-anchor.db
+				rec["k"] = "window-marker-only"
+				rec["fkey"] = "restart-window-trusts-key-revoked-only-by-state-marker"
+				cls = "marker"
+			}
 		}
 		b, _ := json.Marshal(rec)
-		if (viol && !h.windowBadSeen) || (!viol && !h.windowOkSeen) {
+		if !h.windowSeen[cls] {
 			h.windows = append(h.windows, string(b))
 		}
-		if viol {
-			h.windowBadSeen = true
-		} else {
-			h.windowOkSeen = true
-		}
+		h.windowSeen[cls] = true
 	}
 }
 
 func (h *vC09H) start(cfg []vC09Sym) {
-	h.newResolver(cfg)
+	h.newResolver(cfg, 0)
 	h.initCfg = append([]vC09Sym(nil), cfg...)
 	h.init = h.cur.coq()
 	h.desc = append(h.desc, fmt.Sprintf("start cfg=%s -> %s", vC09KeysCoq(cfg), h.cur.short()))
 }
 
 func (h *vC09H) restart(cfg []vC09Sym) {
-	h.newResolver(cfg)
-	h.steps = append(h.steps, fmt.Sprintf("ORestart %s %s", vC09KeysCoq(cfg), h.cur.coq()))
-	h.desc = append(h.desc, fmt.Sprintf("restart cfg=%s -> %s", vC09KeysCoq(cfg), h.cur.short()))
+	tr := 0
+	if x := h.rng.Intn(14); x < 2 {
+		tr = x + 1 // the tombstone file is corrupt / cannot be opened while the process starts
+	}
+	h.newResolver(cfg, tr)
+	h.steps = append(h.steps, fmt.Sprintf("ORestart %s %d %s", vC09KeysCoq(cfg), tr, h.cur.coq()))
+	h.desc = append(h.desc, fmt.Sprintf("restart cfg=%s tombstone_read=%d -> %s", vC09KeysCoq(cfg), tr, h.cur.short()))
 }
 
 // advance the clock: every stored instant moves into the past
@@ -847,7 +874,7 @@ func (h *vC09H) rollback(k int, cfg []vC09Sym) {
 	}
 	vC09Restore(h.spath(), s, sok)
 	vC09Restore(h.tpath(), t, tok)
-	h.newResolver(cfg)
+	h.newResolver(cfg, 0)
 	h.steps = append(h.steps, fmt.Sprintf("ORollback %d %s %s", k, vC09KeysCoq(cfg), h.cur.coq()))
 	h.desc = append(h.desc, fmt.Sprintf("crash after %d of %v replacements, restart cfg=%s -> %s", k, h.renames, vC09KeysCoq(cfg), h.cur.short()))
 }
@@ -922,19 +949,6 @@ func (h *vC09H) revoke(k vC09Sym) {
 	} else {
 		h.pub = append(h.pub, vC09Rev(k))
 	}
-}
-
-// a state-file read fault is only injected when the state file is not the sole
-// record of a revocation (that combination is the listed finding "sreadloss")
-func (h *vC09H) sreadSafe() bool {
-	for _, e := range h.cur.state {
-		if e.st == int(StateRevoked) || e.st == int(StateRemoved) {
-			if _, ok := h.cur.tomb[e.k.mat]; !ok {
-				return false
-			}
-		}
-	}
-	return true
 }
 
 var vC09Day = int64(24 * 60)
@@ -1028,12 +1042,12 @@ func (h *vC09H) pickFaults() vC09Faults {
 		fl.swrite = true
 	case x < 89:
 		fl.twrite, fl.swrite = true, true
-	case x < 94:
+	case x < 93:
 		fl.tread = 1
+	case x < 96:
+		fl.tread = 2
 	default:
-		if h.sreadSafe() {
-			fl.sread = true
-		}
+		fl.sread = true
 	}
 	return fl
 }
@@ -1515,13 +1529,14 @@ var vC09Kinds = []struct {
 	{"tagattack", 5, "", "hist"},
 	{"revfault", 14, "", "hist"},
 	{"cfgboth", 2, "", "check"},
-	{"collide-missing", 1, "", "check"},
 	{"revcol", 2, "", "check"},
-	{"collide", 2, "keytag-collision-ages-absent-pending-key", "split"},
-	{"carry", 2, "revoked-form-tag-carry-revocation-ignored", "split"},
-	{"unreadable", 2, "tombstones-unreadable-proceeds-without-them", "split"},
-	{"sreadloss", 1, "state-read-fault-loses-revocation-marker", "split"},
-	{"cfgrev", 1, "configured-revoked-form-leaves-state-key-live-for-one-run", "split"},
+	// scenarios of the defects repaired by 1f61a03: strict since the fix landed
+	{"collide-missing", 2, "", "hist"},
+	{"collide", 4, "", "hist"},
+	{"carry", 4, "", "hist"},
+	{"unreadable", 4, "", "hist"},
+	{"sreadloss", 4, "", "hist"},
+	{"cfgrev", 3, "", "hist"},
 }
 
 func TestVerifC09AutoTA(t *testing.T) {
@@ -1594,7 +1609,7 @@ func TestVerifC09AutoTA(t *testing.T) {
 		if err != nil {
 			t.Skipf("inotify unavailable: %v", err)
 		}
-		h := &vC09H{t: t, pool: pool, rng: hr, dir: dir, srv: srv, watch: w, used: map[vC09Sym]bool{}, t0: time.Now(), idx: idx}
+		h := &vC09H{t: t, pool: pool, rng: hr, dir: dir, srv: srv, watch: w, used: map[vC09Sym]bool{}, windowSeen: map[string]bool{}, t0: time.Now(), idx: idx}
 		h.scenario(kd.kind)
 		w.close()
 		vC09Stats.tRun += h.tRun
